@@ -229,6 +229,8 @@ def histories(max_ticks: int = 40) -> Any:
         "h": st.lists(tick(W), min_size=3, max_size=max_ticks),
         "sd": st.lists(st.integers(0, 12), max_size=3, unique=True).map(sorted),
         "slow": st.one_of(st.just([]), st.lists(st.tuples(st.integers(0, 8), st.sampled_from([2.0, 8.0, 30.0])).map(list), max_size=4, unique_by=lambda x: x[0])),
+        # the OS hands out process ids from a small cyclic range: a replacement can get the number a reaped worker had
+        "pidpool": st.sampled_from([0, 0, W + 1, W + 2, 2 * W + 1]),
     }))
 
 
@@ -259,6 +261,8 @@ def classify(case: Dict[str, Any], res: Dict[str, Any], an: Dict[str, Any]) -> L
         cl.append("slow_shutdown_worker")
     if case.get("hosted"):
         cl.append("manager_hosted_in_mp_child")
+    if case.get("pidpool"):
+        cl.append("os_reuses_pids")
     return cl
 
 
